@@ -1,4 +1,5 @@
 """Run transaction documents through the implementation (harness) and the Gallina model (Run/DC06.v) and compare."""
+from coqrun import pb
 from gen import pyref, txgen
 from gen.util import lib_vs_model, short
 
@@ -39,6 +40,13 @@ class Probe:
         return pyref.rlp_int(it) if name not in ("to", "data", "accessList") else it
 
 
+def _has_float(dump):
+    """does serde_json's view (harness dump format) contain a floating-point number?  (`d` + 16 hex digits outside hex strings)"""
+    import re
+    # strings and keys are hex (0-9a-f), so a 'd' can only be confused inside them: tokens start after ( , : or at the start
+    return re.search(r"(?:^|[(,:])d[0-9a-f]{16}", dump) is not None
+
+
 def run_docs(ctx, docs, label, clause="tx-vs-model", classes=None, timeout=900):
     """docs: list of JSON texts. Returns list of Probe. Reports model disagreements under `clause`."""
     raw = [d.encode("utf8") if isinstance(d, str) else d for d in docs]
@@ -53,6 +61,17 @@ def run_docs(ctx, docs, label, clause="tx-vs-model", classes=None, timeout=900):
             terms.append("c06_parse %s" % t)
             idx.append(i)
     mod = ctx.model(terms, label=label, timeout=timeout)
+    # ... and from the document's own bytes through the model's JSON reader (Model/JsonText.v), for documents without
+    # floating-point literals (no `d` token in serde_json's view) of moderate size: the model then reads what the code reads
+    tsel = [i for i in idx if len(raw[i]) <= 6000 and not _has_float(dumps[i].fields[0].decode())]
+    if len(tsel) > 400:
+        tsel = ctx.rng.sample(tsel, 400)
+    tterms = []
+    for i in tsel:
+        tterms.append("c06_encode_text %s (NI 1) (NI 2) (NI 0)" % pb(raw[i]))
+        tterms.append("c06_parse_text %s" % pb(raw[i]))
+    tmod = ctx.model(tterms, label=label + "text", timeout=timeout) if tterms else []
+    tmi = {i: k for k, i in enumerate(tsel)}
     out = []
     mi = {i: k for k, i in enumerate(idx)}
     for i, d in enumerate(raw):
@@ -67,6 +86,10 @@ def run_docs(ctx, docs, label, clause="tx-vs-model", classes=None, timeout=900):
             p.model = me
             lib_vs_model(ctx, clause + "/encode", case, enc[i], me)
             lib_vs_model(ctx, clause + "/signing-hash", case, par[i], mp)
+            if i in tmi:
+                ctx.count("tx-from-text(model)")
+                lib_vs_model(ctx, clause + "/encode(from text)", case, enc[i], tmod[2 * tmi[i]])
+                lib_vs_model(ctx, clause + "/signing-hash(from text)", case, par[i], tmod[2 * tmi[i] + 1])
         else:
             # not JSON at all: the implementation must refuse it too
             if enc[i].tag != "err" or par[i].tag != "err":
